@@ -19,7 +19,9 @@ RULE = ("case = generated 2D/3D plotfile x drawn level limit; storage-fault oper
         "applicable site (each binary file; first/middle/last FAB of each file; first/middle/last entry of each level "
         "header) singly - all sites when below the per-case cap, a drawn subset above it - plus drawn pairs; an "
         "independent lenient re-parse (sim/damage.py effective_damage) decides whether the tree really is "
-        "inconsistent in a listed class within the validated levels; if so Taster(dir) must raise and "
+        "inconsistent in a listed class within the validated levels (a sixth of the cases take the damage from a "
+        "CRASHED WRITER instead: the partial tree chef or combine leaves behind after one injected torn/refused "
+        "write, judged the same way); if so Taster(dir) must raise and "
         "Taster(dir, nofail=True) must return falsy without raising, each under a drawn SimPool schedule. "
         "evaluations = cases (worlds); damaged trees are counted separately; non-trivial = an effectively damaged "
         "tree was tasted; distinct = hash(world, limit, operator sites)")
@@ -72,9 +74,84 @@ def enumerate_plans(ctx, m, src, coords, accept_biased, cap_single, n_pairs):
     return plans
 
 
+def crashed_writer_case(ctx, src):
+    """Damage source = the partial output tree a crashed writer leaves behind (chef and combine write
+    the global header first): one write fault (torn or refused write / close) at a drawn site of the
+    run; the independent judge decides whether the tree is damaged in a listed class."""
+    from . import tools
+    from .c13 import execute as c13_execute
+    from ..reader import parse_header, FormatError
+    name = src.choice("crash.tool", ["chef", "combine"])
+    tool = tools.make_tool(name)
+    if name == "combine":
+        tool.draw(ctx, src, mono_only=False)
+    else:
+        tool.draw(ctx, src)
+    tool.opts.update(in_form="abs", cwd="work", out="abs", cli=False)
+    if name == "chef":
+        tool.serial = bool(src.draw("crash.serial", 0, 1))
+    sched_seed = src.draw("sched", 0, 9999)
+    pilot = c13_execute(ctx, tool, 0, sched_seed)
+    shutil.rmtree(pilot.root, ignore_errors=True)
+    if not pilot.outcome.ok:
+        ctx.case_key = common.key_of(["crash-pilot-fails", tool.describe()])
+        return
+    wsites = [i for i, (k, rp, a) in enumerate(pilot.sites) if k in ("write", "close") and "Cell_D" in rp or
+              (k == "write" and rp.endswith("Cell_H"))]
+    if not wsites:
+        ctx.case_key = common.key_of(["crash-nosite", tool.describe()])
+        return
+    n_try = 6 if ctx.tier == "quick" else 30
+    import random
+    rnd = random.Random(src.draw("crash.sites", 0, 9999))
+    chosen = sorted(rnd.sample(wsites, min(n_try, len(wsites))))
+    keys = []
+    for n, idx in enumerate(chosen):
+        kind = pilot.sites[idx][0]
+        fk = "EIO" if kind == "close" else rnd.choice(["TORN", "ENOSPC"])
+        r = c13_execute(ctx, tool, n + 1, sched_seed, plan={idx: fk})
+        out = r.out_abs
+        ctx.stats["crashed_writer_runs"] += 1
+        try:
+            if not r.fired or out is None or not os.path.isdir(out):
+                continue
+            try:
+                h = parse_header(out)
+            except (FormatError, OSError, ValueError, IndexError):
+                ctx.stats["crashed_tree_without_header"] += 1
+                continue
+            nboxes = [len(b) for b in h.boxes_phys]
+            judged = damage.effective_damage(out, nboxes, len(h.fields), h.ndims, h.finest)
+            ctx.ev("crashed", name, idx, fk, "judged", sorted({c for c, _ in judged}))
+            if not judged:
+                ctx.stats["crashed_tree_consistent"] += 1
+                continue
+            ctx.stats["crashed_tree_damaged"] += 1
+            ctx.nontrivial = True
+            res = taste_both(ctx, out, None, sched_seed + n if sched_seed else 0)
+            sig = {"property": ID, "op": f"crashed-{name}", "classes": "+".join(sorted({c for c, _ in judged}))}
+            f, nf = res["fail"], res["nofail"]
+            what = (f"partial output of {name} after {fk} at site #{idx} ({pilot.sites[idx][0]} {pilot.sites[idx][1]}); "
+                    f"judged {judged[:2]}; {tool.describe()}")
+            if f.ok:
+                raise Violation({**sig, "oracle": "failing-mode-does-not-raise"}, f"Taster(dir) returned normally for the {what}")
+            if not nf.ok:
+                raise Violation({**sig, "oracle": "nofail-mode-raises", **nf.exc_sig()},
+                                f"Taster(dir, nofail=True) raised {nf.exc!r} for the {what}")
+            if nf.value is not False:
+                raise Violation({**sig, "oracle": "nofail-mode-truthy"}, f"Taster(dir, nofail=True) is {nf.value!r} for the {what}")
+            keys.append((idx, fk))
+        finally:
+            shutil.rmtree(r.root, ignore_errors=True)
+    ctx.case_key = common.key_of(["crashed", tool.describe(), keys])
+    ctx.sample = {"arm": "crashed-writer", "tool": tool.describe(), "faulted_runs": len(chosen)}
+
+
 def run_case(ctx):
     src = ctx.src
     common.draw_env(ctx)
+    if src.flag("crashed_writer", 6):
+        return crashed_writer_case(ctx, src)
     m = world.gen_world(src, max_boxes=12)
     master = os.path.join(ctx.scratch, "master")
     world.write_plotfile(m, master)
@@ -151,7 +228,8 @@ def check_rejects(ctx, sig, res, descs, judged, m, limit):
 
 
 def evidence_extra(stats):
-    keys = ("damaged_trees", "effective_damage", "rejected_as_demanded", "coord_damage",
+    keys = ("crashed_writer_runs", "crashed_tree_damaged", "crashed_tree_consistent", "crashed_tree_without_header",
+            "damaged_trees", "effective_damage", "rejected_as_demanded", "coord_damage",
             "not_effective_or_out_of_scope", "undemanded_accepted", "taste_runs", "sites_listed")
     out = {k: stats.get(k, 0) for k in keys}
     out["damage_classes_effective"] = {k[len("class."):]: v for k, v in stats.items() if k.startswith("class.")}
